@@ -12,13 +12,14 @@ open PRV.Base PRV.Model.Pow PRV.Spec.C01 PRV.Proofs.C01 PRV.Gen
 
 /-- the Stratum messages carrying a job and a share: notify params
 `[job id, prevhash, coinb1, coinb2, branches, version, nbits, ntime, clean]`, submit params
-`[worker, job id, extranonce2, ntime, nonce (, version bits)]` -/
-def toInput (en1 mask : String) (j : Job) (s : Share) (worker jobId jobNtime : String) (clean : JVal) : Input :=
+`[worker, job id, extranonce2, ntime, nonce (, version bits, anything further)]` -/
+def toInput (en1 mask : String) (j : Job) (s : Share) (worker jobId jobNtime : String) (clean : JVal)
+    (extra : List String := []) : Input :=
   { en1 := en1
     mask := mask
     job := [.str jobId, .str j.prevHash, .str j.gen1, .str j.gen2, .arr j.branches, .str j.version, .str j.nbits,
             .str jobNtime, clean]
-    submit := [worker, jobId, s.en2, s.ntime, s.nonce] ++ (match s.bits with | some b => [b] | none => []) }
+    submit := [worker, jobId, s.en2, s.ntime, s.nonce] ++ (match s.bits with | some b => b :: extra | none => []) }
 
 /-! ### the regenerated description of the Go function is the one the proofs are about -/
 
@@ -32,7 +33,7 @@ theorem shape_facts :
     C01.versionOperands = [("jv", "binary.LittleEndian.Uint32:decode_swap", "version"),
                            ("sv", "binary.LittleEndian.Uint32:decode_swap", "sver"),
                            ("vm", "binary.LittleEndian.Uint32:decode_swap", "version_mask")] ∧
-    C01.vaasCall = "ValidateDiffFloat(job.extraNonce1,uint(job.extraNonce2Size),job.diff,v.versionRollingMask,job.notify,msg)" := by
+    C01.vaasCall = "ValidateDiffFloat(job.extraNonce1,uint(job.extraNonce2Size),job.diff,mask,job.notify,msg)" := by
   decide
 
 theorem d1_eq : d1 = D1 := rfl
@@ -49,37 +50,37 @@ theorem merkleRoot_eq (H : List Nat → List Nat) (en1 mask : String) (j : Job) 
   simp only [List.append_assoc]
   rfl
 
-theorem versionField_eq (en1 mask : String) (j : Job) (s : Share) (w id nt : String) (c : JVal)
+theorem versionField_eq (en1 mask : String) (j : Job) (s : Share) (w id nt : String) (c : JVal) (extra : List String)
     (h : wellFormed en1 mask j s = true) :
-    versionField (toInput en1 mask j s w id nt c) = some (le4 (version mask j s).toNat) := by
+    versionField (toInput en1 mask j s w id nt c extra) = some (le4 (version mask j s).toNat) := by
   unfold wellFormed at h
   simp only [Bool.and_eq_true] at h
   obtain ⟨⟨⟨⟨⟨⟨⟨⟨⟨⟨_, hver⟩, _⟩, _⟩, _⟩, _⟩, _⟩, _⟩, _⟩, _⟩, hbits⟩ := h
   unfold versionField version
   cases hb : s.bits with
   | none =>
-    have : ¬ ((toInput en1 mask j s w id nt c).submit.length > C01.sverMinLen) := by
+    have : ¬ ((toInput en1 mask j s w id nt c extra).submit.length > C01.sverMinLen) := by
       simp [toInput, hb, C01.sverMinLen]
     rw [if_neg this]
-    have hv : getVar (toInput en1 mask j s w id nt c) "version" = some j.version := rfl
+    have hv : getVar (toInput en1 mask j s w id nt c extra) "version" = some j.version := rfl
     simp only [C01.versionElse, field, hv, Option.map_some, decodeSwap_le4 _ hver, word_toNat _ hver]
   | some b =>
     rw [hb] at hbits
     simp only [Bool.and_eq_true] at hbits
-    have : (toInput en1 mask j s w id nt c).submit.length > C01.sverMinLen := by
+    have : (toInput en1 mask j s w id nt c extra).submit.length > C01.sverMinLen := by
       simp [toInput, hb, C01.sverMinLen]
     rw [if_pos this]
-    have o1 : operand (toInput en1 mask j s w id nt c) "jv" = some (word j.version) := by
-      have : operand (toInput en1 mask j s w id nt c) "jv" = leU32 (decodeSwap j.version) := rfl
+    have o1 : operand (toInput en1 mask j s w id nt c extra) "jv" = some (word j.version) := by
+      have : operand (toInput en1 mask j s w id nt c extra) "jv" = leU32 (decodeSwap j.version) := rfl
       rw [this]; exact leU32_decodeSwap _ hver
-    have o2 : operand (toInput en1 mask j s w id nt c) "vm" = some (word mask) := by
-      have : operand (toInput en1 mask j s w id nt c) "vm" = leU32 (decodeSwap mask) := rfl
+    have o2 : operand (toInput en1 mask j s w id nt c extra) "vm" = some (word mask) := by
+      have : operand (toInput en1 mask j s w id nt c extra) "vm" = leU32 (decodeSwap mask) := rfl
       rw [this]; exact leU32_decodeSwap _ hbits.2
-    have o3 : operand (toInput en1 mask j s w id nt c) "sv" = some (word b) := by
-      have : getVar (toInput en1 mask j s w id nt c) "sver" = some b := by
+    have o3 : operand (toInput en1 mask j s w id nt c extra) "sv" = some (word b) := by
+      have : getVar (toInput en1 mask j s w id nt c extra) "sver" = some b := by
         simp [getVar, C01.en1Name, C01.maskName, C01.jobParam, C01.submitParam, List.lookup, toInput, hb]
-      have e : operand (toInput en1 mask j s w id nt c) "sv" =
-          (getVar (toInput en1 mask j s w id nt c) "sver").bind fun s => leU32 (decodeSwap s) := rfl
+      have e : operand (toInput en1 mask j s w id nt c extra) "sv" =
+          (getVar (toInput en1 mask j s w id nt c extra) "sver").bind fun s => leU32 (decodeSwap s) := rfl
       rw [e, this]
       exact leU32_decodeSwap _ hbits.1
     have a0 : C01.mixArgs[0]! = "jv" := rfl
@@ -91,35 +92,35 @@ theorem versionField_eq (en1 mask : String) (j : Job) (s : Share) (w id nt : Str
 /-- **The header the code hashes is the block header.**  On well-formed input the bytes assembled
 by the (regenerated) model are exactly version ‖ prevhash ‖ merkle root ‖ ntime ‖ nbits ‖ nonce in
 the Bitcoin layout. -/
-theorem header_eq_spec (H : List Nat → List Nat) (en1 mask : String) (j : Job) (s : Share) (w id nt : String) (c : JVal)
+theorem header_eq_spec (H : List Nat → List Nat) (en1 mask : String) (j : Job) (s : Share) (w id nt : String) (c : JVal) (extra : List String)
     (h : wellFormed en1 mask j s = true) :
-    Model.Pow.header H (toInput en1 mask j s w id nt c) = some (Spec.C01.header H en1 mask j s) := by
+    Model.Pow.header H (toInput en1 mask j s w id nt c extra) = some (Spec.C01.header H en1 mask j s) := by
   have hwf := h
   unfold wellFormed at h
   simp only [Bool.and_eq_true] at h
   obtain ⟨⟨⟨⟨⟨⟨⟨⟨⟨⟨hprev, _⟩, hnbits⟩, hntime⟩, hnonce⟩, _⟩, _⟩, _⟩, _⟩, _⟩, _⟩ := h
   unfold Model.Pow.header
-  have s2 : (toInput en1 mask j s w id nt c).submit[2]? = some s.en2 := by simp [toInput]
-  have s3 : (toInput en1 mask j s w id nt c).submit[3]? = some s.ntime := by simp [toInput]
-  have s4 : (toInput en1 mask j s w id nt c).submit[4]? = some s.nonce := by simp [toInput]
+  have s2 : (toInput en1 mask j s w id nt c extra).submit[2]? = some s.en2 := by simp [toInput]
+  have s3 : (toInput en1 mask j s w id nt c extra).submit[3]? = some s.ntime := by simp [toInput]
+  have s4 : (toInput en1 mask j s w id nt c extra).submit[4]? = some s.nonce := by simp [toInput]
   rw [s2, s3, s4]
-  have g1 : getVar (toInput en1 mask j s w id nt c) "gen1" = some j.gen1 := rfl
-  have g2 : getVar (toInput en1 mask j s w id nt c) "en1" = some en1 := rfl
-  have g3 : getVar (toInput en1 mask j s w id nt c) "en2" = some s.en2 := by
+  have g1 : getVar (toInput en1 mask j s w id nt c extra) "gen1" = some j.gen1 := rfl
+  have g2 : getVar (toInput en1 mask j s w id nt c extra) "en1" = some en1 := rfl
+  have g3 : getVar (toInput en1 mask j s w id nt c extra) "en2" = some s.en2 := by
     simp [getVar, C01.en1Name, C01.maskName, C01.jobParam, C01.submitParam, List.lookup, toInput]
-  have g4 : getVar (toInput en1 mask j s w id nt c) "gen2" = some j.gen2 := rfl
-  have g5 : getVar (toInput en1 mask j s w id nt c) "prev_hash" = some j.prevHash := rfl
-  have g6 : getVar (toInput en1 mask j s w id nt c) "ntime" = some s.ntime := by
+  have g4 : getVar (toInput en1 mask j s w id nt c extra) "gen2" = some j.gen2 := rfl
+  have g5 : getVar (toInput en1 mask j s w id nt c extra) "prev_hash" = some j.prevHash := rfl
+  have g6 : getVar (toInput en1 mask j s w id nt c extra) "ntime" = some s.ntime := by
     simp [getVar, C01.en1Name, C01.maskName, C01.jobParam, C01.submitParam, List.lookup, toInput]
-  have g7 : getVar (toInput en1 mask j s w id nt c) "nbits" = some j.nbits := rfl
-  have g8 : getVar (toInput en1 mask j s w id nt c) "nonce" = some s.nonce := by
+  have g7 : getVar (toInput en1 mask j s w id nt c extra) "nbits" = some j.nbits := rfl
+  have g8 : getVar (toInput en1 mask j s w id nt c extra) "nonce" = some s.nonce := by
     simp [getVar, C01.en1Name, C01.maskName, C01.jobParam, C01.submitParam, List.lookup, toInput]
-  have hcat : concatVars (toInput en1 mask j s w id nt c) C01.genOrder =
+  have hcat : concatVars (toInput en1 mask j s w id nt c extra) C01.genOrder =
       some (j.gen1 ++ (en1 ++ (s.en2 ++ (j.gen2 ++ "")))) := by
     simp only [C01.genOrder, concatVars, g1, g2, g3, g4]
-  have hbr : branchesOf (toInput en1 mask j s w id nt c) = j.branches := rfl
+  have hbr : branchesOf (toInput en1 mask j s w id nt c extra) = j.branches := rfl
   simp only [hcat]
-  rw [hbr, merkleRoot_eq H en1 mask j s hwf, versionField_eq en1 mask j s w id nt c hwf]
+  rw [hbr, merkleRoot_eq H en1 mask j s hwf, versionField_eq en1 mask j s w id nt c extra hwf]
   have hp := (hexN_bytes 32 _ hprev).1
   simp only [C01.headerParts, catFields, field, g5, g6, g7, g8, Option.map_some, Option.bind_some,
     swapWords_eq _ (by omega : (hexDecode j.prevHash).length % 4 = 0),
@@ -150,13 +151,13 @@ theorem header_len (H : List Nat → List Nat) (hH : ∀ x, (H x).length = 32) (
 /-- **What the code returns.**  For well-formed input whose header hash is not zero, the Go function
 reports ⌊D1 / hash⌋ (its low 64 bits) and says "meets" exactly when `d · hash ≤ D1` for the exact
 value `d` of the job difficulty; a non-finite difficulty is never met. -/
-theorem validateDiff_eq_spec (H : List Nat → List Nat) (en1 mask : String) (j : Job) (s : Share) (w id nt : String) (c : JVal)
+theorem validateDiff_eq_spec (H : List Nat → List Nat) (en1 mask : String) (j : Job) (s : Share) (w id nt : String) (c : JVal) (extra : List String)
     (d : Option Rat) (h : wellFormed en1 mask j s = true) (hz : shareHash H en1 mask j s ≠ 0) :
-    validateDiff H (toInput en1 mask j s w id nt c) d =
+    validateDiff H (toInput en1 mask j s w id nt c extra) d =
       .ok (shareDiff H en1 mask j s % 2 ^ 64)
           (match d with | none => false | some d => decide (d * (shareHash H en1 mask j s : Rat) ≤ (D1 : Rat))) := by
   unfold validateDiff
-  rw [header_eq_spec H en1 mask j s w id nt c h]
+  rw [header_eq_spec H en1 mask j s w id nt c extra h]
   have : leNat (sha256d H (Spec.C01.header H en1 mask j s)) = shareHash H en1 mask j s := by
     rw [leNat_eq]; rfl
   simp only [this]
@@ -164,10 +165,10 @@ theorem validateDiff_eq_spec (H : List Nat → List Nat) (en1 mask : String) (j 
   cases d <;> rfl
 
 /-- **Accepted iff the proof of work meets the difficulty in force.** -/
-theorem accept_iff_meets (H : List Nat → List Nat) (en1 mask : String) (j : Job) (s : Share) (w id nt : String) (c : JVal)
+theorem accept_iff_meets (H : List Nat → List Nat) (en1 mask : String) (j : Job) (s : Share) (w id nt : String) (c : JVal) (extra : List String)
     (d : Rat) (h : wellFormed en1 mask j s = true) (hz : shareHash H en1 mask j s ≠ 0) :
-    (∃ t, validateDiff H (toInput en1 mask j s w id nt c) (some d) = .ok t true) ↔ meets H en1 mask j s d := by
-  rw [validateDiff_eq_spec H en1 mask j s w id nt c (some d) h hz]
+    (∃ t, validateDiff H (toInput en1 mask j s w id nt c extra) (some d) = .ok t true) ↔ meets H en1 mask j s d := by
+  rw [validateDiff_eq_spec H en1 mask j s w id nt c extra (some d) h hz]
   unfold meets
   constructor
   · rintro ⟨t, ht⟩
@@ -189,12 +190,13 @@ theorem meets_integer (H : List Nat → List Nat) (en1 mask : String) (j : Job) 
 
 /-! ### nothing else the miner sends influences the verdict -/
 
-/-- the worker name, the job id text, the notify's own ntime and clean flag do not enter -/
+/-- the worker name, the job id text, the notify's own ntime and clean flag, and parameters after
+the version bits do not enter -/
 theorem verdict_ignores_names (H : List Nat → List Nat) (en1 mask : String) (j : Job) (s : Share)
-    (w id nt w' id' nt' : String) (c c' : JVal) (d : Option Rat) (h : wellFormed en1 mask j s = true) :
-    validateDiff H (toInput en1 mask j s w id nt c) d = validateDiff H (toInput en1 mask j s w' id' nt' c') d := by
+    (w id nt w' id' nt' : String) (c c' : JVal) (extra extra' : List String) (d : Option Rat) (h : wellFormed en1 mask j s = true) :
+    validateDiff H (toInput en1 mask j s w id nt c extra) d = validateDiff H (toInput en1 mask j s w' id' nt' c' extra') d := by
   unfold validateDiff
-  rw [header_eq_spec H en1 mask j s w id nt c h, header_eq_spec H en1 mask j s w' id' nt' c' h]
+  rw [header_eq_spec H en1 mask j s w id nt c extra h, header_eq_spec H en1 mask j s w' id' nt' c' extra' h]
 
 /-- version bits outside the negotiated mask do not enter: two submits whose version bits agree
 inside the mask hash the same header -/
